@@ -182,7 +182,7 @@ class TriggerHandler:
         if len(callbacks) > 0:
             logging.debug("Callbacks registered: %s", callbacks)
             self._callbacks.get().append(
-                CallbackContext(event, file, line, function, callbacks))
+                CallbackContext(event, file, line, function, callbacks, frame))
             # the callbacks reach this context again through their action contexts: the callback context owns them now
             trigger_context.callbacks = []
 
@@ -209,6 +209,12 @@ class TriggerHandler:
             if context.at_location(event, file, line, function_name, frame):
                 logging.debug("At callback location %s", context.name)
                 context.process(ctx, event, frame, arg)
+                # one invocation can have opened several contexts that end on the same event (a method span and a
+                # capture on the last line of that method): they are all complete now, not only the most recent one
+                pending = self._callbacks.value
+                while len(pending) > 0 and pending[-1].opened_by(frame) \
+                        and pending[-1].at_location(event, file, line, function_name, frame):
+                    pending.pop().process(ctx, event, frame, arg)
             else:
                 logging.debug("Not at callback location %s", context.name)
                 # else put the context back on the queue
